@@ -213,3 +213,15 @@ def run(ctx):
     ctx.guard("R12.4", "prims", lambda: r12_4(ctx))
     ctx.guard("R12.5", "inline", lambda: r12_5(ctx))
     ctx.guard("R12.6", "nf", lambda: nf_common.nf_rule(ctx, "R12.6", AREA, only=("tendril::", "buf32::"), floor=120))
+
+    def witnesses():
+        from lib.witness import run_witnesses
+
+        res = [w for w in run_witnesses() if w[0] in ("NonAtomicIsNotSend", "TendrilIsNotSync")]
+        for k, (item, kind, ok, line) in enumerate(sorted(res)):
+            ctx.ob("R12.3w", "witness/%s/%s#%d" % (item, kind, k), ok, ("does not compile, with the expected error code" if kind == "compile_fail" else "compiling twin compiles") if ok else "witness %s (%s, engines/witness/src/lib.rs:%d) did not behave as required" % (item, kind, line))
+        ctx.floor("R12.3w", "witnesses", len(res), 5)
+
+    if ctx.tier == "thorough":
+        ctx.rule("R12.3w", "compile-fail witnesses: Tendril<_, NonAtomic> is not Send, no Tendril is Sync; compiling twins (rustdoc, nightly, error codes checked)")
+        ctx.guard("R12.3w", "witness", witnesses)
